@@ -54,11 +54,18 @@ class ArrayGenerator(object):
         self._kwargs = kwargs
         self._form = _check_form(form, "ArrayGenerator")
         self._length = _check_length(length, "ArrayGenerator")
+        self._inferred_form = None
 
     callable = property(lambda self: self._callable)
     args = property(lambda self: self._args)
     kwargs = property(lambda self: self._kwargs)
-    form = property(lambda self: self._form)
+
+    @property
+    def form(self):
+        if self._form is None and self._inferred_form is not None:
+            return self._inferred_form
+        return self._form
+
     length = property(lambda self: self._length)
 
     @property
@@ -77,10 +84,18 @@ class ArrayGenerator(object):
         import awkward as ak
 
         out = self._callable(*self._args, **self._kwargs)
-        return ak.to_layout(out, False, False)
+        out = ak.to_layout(out, False, False)
+        if self._form is None:
+            # ArrayGenerator::generate_and_check: inferred_form_ = out->form(true)
+            try:
+                self._inferred_form = typesforms.form_from_json(core.d_str(out._call("form_materialized", skel=True)))
+            except Exception:
+                pass
+        return out
 
     def _sx(self):
-        return "(pygen %d %s %d)" % (core.reg_gen(self), _form_sx(self._form), -1 if self._length is None else self._length)
+        return "(pygen %d %s %d %s)" % (core.reg_gen(self), _form_sx(self._form), -1 if self._length is None else self._length,
+                                       _form_sx(self._inferred_form))
 
     def __call__(self):
         return C.fromsx(core.request("generate_and_check " + self._sx()))
@@ -293,9 +308,14 @@ def rd_gen(t):
         form = _rd_form(t[2])
         length = None if int(t[3]) < 0 else int(t[3])
         same_form = (form is None and gen._form is None) or (form is not None and gen._form is not None and form._json() == gen._form._json())
+        inferred = _rd_form(t[4]) if len(t) > 4 else None
         if same_form and length == gen._length:
+            if inferred is not None and gen._inferred_form is None:
+                gen._inferred_form = inferred
             return gen
-        return gen._with(form=form, length=length)
+        out = gen._with(form=form, length=length)
+        out._inferred_form = inferred
+        return out
     if t[0] == "slicegen":
         form = _rd_form(t[1])
         length = None if int(t[2]) < 0 else int(t[2])
